@@ -26,8 +26,14 @@ PRE = gen_prog.PRELUDE
 
 
 def layout_program(rng):
-    g = gen_prog.Gen(random.Random(rng.getrandbits(64)), max_depth=3, max_nodes=18, avoid={"ctl_outside", "level_beyond"})
-    body = g.seq(0, {}, 3)
+    from . import c02
+    for _ in range(50):
+        g = gen_prog.Gen(random.Random(rng.getrandbits(64)), max_depth=3, max_nodes=18, avoid={"ctl_outside", "level_beyond"})
+        body = g.seq(0, {}, 3)
+        # the open C02 findings (break/continue in a subshell in a loop, in a loop condition, ...) differ from bash in every delivery
+        # mode alike: not this property's business, and fenced off with the same structural predicate C02 uses
+        if not c02.in_known_region(body, g.funcs):
+            break
     text = gen_prog.render_program(g.funcs, body)
     lines = text.split("\n")
     out = []
